@@ -412,6 +412,37 @@ def r45s(F):
                    "strict := the caller's strict flag" if ok else
                    "%s passes %s as the strict flag of %s: inside that evaluation an unset variable is handled by another mode than the "
                    "one the user chose (a strict build silently yields NULL, or a lenient one fails)" % (short, why, n.split("::")[-1]))
+    # a struct with a `strict` field that is built from another value (clone / copy constructors, `Self { strict: .., }`): the
+    # field is filled from a `strict` field or parameter, not from a neighbouring flag
+    for n, fn in sorted(F.fns.items()):
+        if not n.startswith("ucglib::build::") or fn.derived or "::test" in n:
+            continue
+        o = None
+        k_ = 0
+        for b, j, pl, rv, m in fn.assigns():
+            if rv["k"] != "agg" or "strict" not in (rv.get("fields") or []):
+                continue
+            idx = rv["fields"].index("strict")
+            if idx >= len(rv["ops"]):
+                continue
+            a = rv["ops"][idx]
+            short = n.split("::")[-2] + "::" + n.split("::")[-1]
+            if "int" in a:
+                # a literal default (constructors: `strict: true`)
+                continue
+            o = o or Origins(fn)
+            labs = o.at(a, b)
+            fields = {l[1] for l in labs if l[0] == "field"}
+            cnames = fn.var_names()
+            params = {l[1] for l in labs if l[0] == "param"}
+            from_strict = "strict" in fields or any("strict" in cnames.get(p_, ()) for p_ in params)
+            other = sorted(f for f in fields if f in ("validate_mode", "validate", "is_module", "success", "reserved"))
+            ok = from_strict and not other
+            r.inst("%s:field-strict#%d" % (short, k_), fn.where(b), ok,
+                   "strict := a strict field / parameter" if ok else
+                   "%s fills the `strict` field from %s: the copy evaluates in another mode than the original (module bodies and "
+                   "format scopes run in a clean_copy)" % (short, other or sorted(fields) or "an unidentified source"))
+            k_ += 1
     return r
 
 
